@@ -204,9 +204,9 @@ VARIANTS += [
     ("C09-minutes-nosign", "C09", DUR, "self._i = (abs(seconds) // 60 % 60) * self._sign(seconds)", "self._i = (abs(seconds) // 60 % 60)", "RADIX.digit"),
     ("C09-sign-fn", "C09", DUR, "        if value < 0:\n            return -1\n\n        return 1", "        if value <= 0:\n            return -1\n\n        return 1", "RADIX.sign"),
     ("C09-months-abs", "C09", DUR, "        self._months = months\n        self._years = years", "        self._months = abs(months)\n        self._years = years", "DIVMOD.pair"),
-    ("C09-guard-removed", "C09", DUR, "        if not isinstance(years, int) or not isinstance(months, int):\n            raise ValueError(\"Float year and months are not supported\")\n\n        self = timedelta.__new__(\n            cls,\n            days + years", "        self = timedelta.__new__(\n            cls,\n            days + years", "GUARD.int"),
+    # (C09-guard-removed was dropped: the property quantifies over integer arguments, a constructor without the float guard still satisfies it)
     ("C09-abs-divmod", "C09", DUR, "self._weeks, self._remaining_days = divmod(days, 7)", "self._remaining_days, self._weeks = divmod(days, 7)", "DIVMOD.pair"),
-    ("C09-in-days-floor", "C09", DUR, "        return int(self.total_days())", "        return math.floor(self.total_days())", "TRUNC.in"),
+    ("C09-in-days-floor", "C09", DUR, [("        return int(self.total_days())", "        return math.floor(self.total_days())"), ("from datetime import timedelta\n", "import math\n\nfrom datetime import timedelta\n")], None, "TOTALS.tabulated"),
 ]
 
 VARIANTS += [
@@ -484,6 +484,14 @@ VARIANTS += [
     ("C13-rs-order-value-guard", "C13", RSP, "                                if last_rank >= 6 {\n", "                                if duration.seconds != 0 || duration.microseconds != 0 {\n", "ORDER-GUARD"),
 ]
 
+
+# defects repaired in /repo by 359d709 (a quarter token overrode the month and day of a full date) and 40e2e39 (copies of an absolute duration
+# built from a negative amount lost the sign): re-introduced
+VARIANTS += [
+    ("C08-quarter-overrides-month", "C08", FMT, '        if parsed["quarter"] is not None and parsed["month"] is None:', '        if parsed["quarter"] is not None:', "ROUNDTRIP.tabulated"),
+    ("C14-absolute-state-unsigned", "C14", DUR, "        if self._total < 0:\n            return cast(", "        if False:\n            return cast(", "STATE-COMPLETE.tabulated"),
+    ("C14-absolute-deepcopy-inherited", "C14", DUR, "    def __deepcopy__(self, _: dict[int, Self]) -> Self:\n        return self.__class__(*self._getstate())\n", "", "STATE-COMPLETE.tabulated"),
+]
 
 # round 2: rules added for the second batch of independent seeds and for the defects they led to
 VARIANTS += [
